@@ -72,6 +72,8 @@ def check_cases(cases: list[dict], rep: Report, known: dict) -> None:
     ecs = []
     sem = []          # (case, label, expression text of the output, point)
     for c in cases:
+        if rep.stop():
+            break
         big = c["origin"] == "budget"
         fresh = wire.build_raw(c["e"])
         with common.WarnCatcher() as wc:
